@@ -107,8 +107,16 @@ def cut_into_rectangles(cells, rng):
 
 
 def tiling(rng):
-    mode = rng.choice(['polyomino', 'polyomino', 'ring'])
-    if mode == 'ring':
+    mode = rng.choice(['polyomino', 'polyomino', 'ring', 'components'])
+    if mode == 'components':
+        # two or three separate outlines; one that is NOT the largest encloses a void
+        big = G.rect_cells(0, 0, rng.randint(5, 7), rng.randint(5, 7))
+        n = rng.randint(3, 4); ox = 10
+        ring = {(i + ox, j) for i, j in (G.rect_cells(0, 0, n, n) - G.rect_cells(1, 1, n - 1, n - 1))}
+        cells = big | ring
+        if rng.random() < 0.5:
+            cells |= {(i + 20, j) for i, j in G.rect_cells(0, 0, 2, rng.randint(1, 3))}
+    elif mode == 'ring':
         n = rng.randint(3, 5)
         cells = G.rect_cells(0, 0, n, n) - G.rect_cells(1, 1, n - 1, n - 1)
     else:
